@@ -12,14 +12,15 @@
           and (tsb = 1) a sandbox.  tld = 1 / 2: top1 / top2 also hands down a tool ld
           that nobody uses (the SETS of ambient tools differ).
    Files (content = tuple of small numbers, <<>> = file absent):
-     default <<a>>   default.yaml: A            req  <<b>>   require:d yaml: B
+     default <<a>>   default.yaml: A            req  <<b>>   require:d yaml: B (b = 2: B is NOT SET)
      user    <<b, s>> OPTIONAL include: B, and (s = 1) an scmOverrides entry that rewrites the
                      checkout of lib            inc  <<iv>>  script include of lib ($<'..'>)
      cls     <<cv>>  class of lib (cv = 1: lib also reads B)
      lib     <<lv>>  lv = 0: reads A, reads B only if A = 1, uses tool cc only if A = 0
                      lv = 1: reads B, reads A only if B = 1, always uses tool cc
      mid     <<mv>>  mv = 1: depends on lib only if A = 1 (reads A)
-     top     <<tv, ttool, tsb, tld>>  tv = 0: top2 flips B for its dependencies, tv = 1: flips A
+     top     <<tv, ttool, tsb, tld>>  tv = 0: top2 flips B for its dependencies (unset -> 1), tv = 1:
+                     flips A; ttool = 3: top1 hands down NO tool cc (tool value 0), top2 variant 2
    def = <<>> | <<a>> : -D A=a (or -c config) given on the command line.
 
    M layer, transcribed from the code:
@@ -36,6 +37,8 @@
      NoTouchOnHit          a memo hit does not touch the keys of the reused package in the caller
      MemoIgnoresTools      the memo key leaves out the touched tools
      MemoIgnoresSandbox    the memo key leaves out the sandbox
+     MemoIgnoresUnsetTouched  the memo key keeps only touched variables / tools that were DEFINED
+                           (touched-but-unset is forgotten: unset on the path visited first, set later)
      DiffNamesAmbientTools AS THE CODE STANDS: the reference to an `inherit: false` dependency names
                            the tools that were ambient when the package was first computed
      ByIdIgnoresMeta       AS THE CODE STANDS: packages are shared by the result id of the package
@@ -89,7 +92,7 @@ Zero   == [r \in R |-> 0]
 
 InitContent == [f \in Files |->
    CASE f = "default" -> <<1>> [] f = "req" -> <<0>> [] f = "user" -> <<>> [] f = "cls" -> <<0>>
-     [] f = "inc" -> <<0>> [] f = "lib" -> <<0>> [] f = "mid" -> <<0>> [] f = "top" -> <<0, 2, 0, 0>>]
+     [] f = "inc" -> <<0>> [] f = "lib" -> <<0>> [] f = "mid" -> <<0>> [] f = "top" -> <<0, 1, 0, 0>>]
 
 ----------------------------------------------------------------------------
 (* meaning of the project: pure functions of the parsed data d *)
@@ -120,17 +123,22 @@ ReadsE(d, r, inp) ==
     [] r = "top2" -> IF TV(d) = 0 THEN {"B"} ELSE {"A"}
     [] r = "tag"  -> {"B"}
     [] OTHER      -> {}
-UsesTool(d, r, inp) == r = "lib" /\ (LV(d) = 1 \/ inp.env.A = 0)
-ReadsT(d, r, inp) == IF UsesTool(d, r, inp) THEN {"cc"} ELSE {}
+\* lib asks $(is-tool-defined,cc) (touches cc, present or not) and uses the tool if it is there
+UsesTool(d, r, inp) == r = "lib" /\ inp.tool # 0 /\ (LV(d) = 1 \/ inp.env.A = 0)
+ReadsT(d, r, inp) == IF r = "lib" THEN {"cc"} ELSE {}
+T1Tool(d) == IF TTool(d) = 3 THEN 0 ELSE 1
+T2Tool(d) == IF TTool(d) = 3 THEN 2 ELSE TTool(d)
+Unset == 2
 
 Call(r, inp) == [r |-> r, inp |-> inp]
 Deps(d, r, inp) ==
   CASE r = "root" -> << Call("top1", inp), Call("top2", inp) >>
-    [] r = "top1" -> LET i1 == [env |-> inp.env, tool |-> 1, sb |-> 0,
-                                 amb |-> {"cc"} \cup (IF TLd(d) = 1 THEN {"ld"} ELSE {})]
+    [] r = "top1" -> LET i1 == [env |-> inp.env, tool |-> T1Tool(d), sb |-> 0,
+                                 amb |-> (IF T1Tool(d) # 0 THEN {"cc"} ELSE {}) \cup (IF TLd(d) = 1 THEN {"ld"} ELSE {})]
                      IN << Call("lib", i1), Call("mid", i1), Call("box", i1), Call("tag", i1) >>
-    [] r = "top2" -> LET e  == IF TV(d) = 0 THEN [inp.env EXCEPT !.B = 1 - @] ELSE [inp.env EXCEPT !.A = 1 - @]
-                         i2 == [env |-> e, tool |-> TTool(d), sb |-> TSb(d),
+    [] r = "top2" -> LET e  == IF TV(d) = 0 THEN [inp.env EXCEPT !.B = IF @ = 1 THEN 0 ELSE 1]
+                                               ELSE [inp.env EXCEPT !.A = 1 - @]
+                         i2 == [env |-> e, tool |-> T2Tool(d), sb |-> TSb(d),
                                  amb |-> {"cc"} \cup (IF TLd(d) = 2 THEN {"ld"} ELSE {})]
                      IN << Call("lib", i2), Call("mid", i2), Call("box", i2), Call("tag", i2) >>
     [] r = "mid"  -> IF MV(d) = 0 \/ inp.env.A = 1 THEN << Call("lib", inp) >> ELSE << >>
@@ -232,7 +240,8 @@ EditRecipe ==
        \/ SetContent("EditRecipe", "lib", Flip1("lib"), keep)
        \/ SetContent("EditRecipe", "mid", Flip1("mid"), keep)
        \/ LET t == content["top"]
-          IN \E c \in { <<1 - t[1], t[2], t[3], t[4]>>, <<t[1], 3 - t[2], t[3], t[4]>>, <<t[1], t[2], 1 - t[3], t[4]>>,
+          IN \E c \in { <<1 - t[1], t[2], t[3], t[4]>>, <<t[1], (t[2] % 3) + 1, t[3], t[4]>>,
+                         <<t[1], ((t[2] + 1) % 3) + 1, t[3], t[4]>>, <<t[1], t[2], 1 - t[3], t[4]>>,
                          <<t[1], t[2], t[3], (t[4] + 1) % 3>>, <<t[1], t[2], t[3], (t[4] + 2) % 3>> } :
                SetContent("EditRecipe", "top", c, keep)
 
@@ -243,7 +252,7 @@ EditInclude ==
   /\ EditOK
   /\ \E keep \in Keeps :
        \/ SetContent("EditInclude", "inc", Flip1("inc"), FALSE)
-       \/ SetContent("EditInclude", "req", Flip1("req"), keep)
+       \/ \E c \in { <<0>>, <<1>>, <<Unset>> } \ { content["req"] } : SetContent("EditInclude", "req", c, keep)
        \/ /\ content["user"] # <<>>
           /\ \E c \in { <<1 - content["user"][1], content["user"][2]>>, <<content["user"][1], 1 - content["user"][2]>> } :
                SetContent("EditInclude", "user", c, keep)
@@ -424,11 +433,12 @@ CallDep ==
 \* the same key in __corePackagesById; the matcher keeps the inputs restricted to the touched keys
 Remember ==
   /\ InPrep /\ Top.ph = "D" /\ Top.i > Len(Deps(data, Top.r, Top.inp))
-  /\ LET pid  == PidOf(data, inv.flag, Top.r, Top.inp)
+  /\ LET weakU == "MemoIgnoresUnsetTouched" \in Weak
+         pid  == PidOf(data, inv.flag, Top.r, Top.inp)
          same == {j \in 1..Len(byId[Top.r]) : PidOf(data, inv.flag, Top.r, byId[Top.r][j]) = pid}
          ret  == IF same = {} THEN Top.inp ELSE byId[Top.r][CHOOSE j \in same : \A j2 \in same : j <= j2]
-         m == [env    |-> [k \in tchE[Len(tchE)] |-> Top.inp.env[k]],
-               tools  |-> IF "MemoIgnoresTools" \in Weak THEN EmptyF
+         m == [env    |-> [k \in {x \in tchE[Len(tchE)] : ~(weakU /\ Top.inp.env[x] = Unset)} |-> Top.inp.env[k]],
+               tools  |-> IF "MemoIgnoresTools" \in Weak \/ (weakU /\ Top.inp.tool = 0) THEN EmptyF
                           ELSE [t \in tchT[Len(tchT)] |-> Top.inp.tool],
                sb     |-> Top.inp.sb,
                src    |-> ret]              \* the package Mk(data, flag, r, ret, results of Deps)
